@@ -242,6 +242,15 @@ def add_round3(spec):
         m["session_ms"] = 1500
         m["heartbeat_ms"] = 300
         m["rev_sleep"] = round(rx.uniform(2.0, 3.3), 3)
+    # an old broker: OffsetFetch v1 only, where group-level errors come as per-partition error codes (v2+ brokers
+    # report them in the top-level field only); drawn last, from a stream of its own
+    ry = random.Random(spec["seed"] ^ 0x0FF5E7)
+    if ry.random() < 0.3:
+        spec["api_versions"] = {"OffsetFetch": [1, 1]}
+        if ry.random() < 0.7:
+            spec["faults"] = list(spec["faults"]) + [
+                {"kind": "error", "api": "OffsetFetch", "client": ry.choice(members)["cid"], "nth": ry.randrange(0, 4),
+                 "code": ry.choice([14, 16]), "count": ry.choice([1, 2])}]
 
 
 # ------------------------------------------------------------------------------------------ running
@@ -667,7 +676,7 @@ def install_stale_oor(cluster, wanted, nodes):
 def run_scenario(env, spec):
     sim = env.sim
     cluster = sim.SimCluster(nodes=spec["nodes"], topics=dict(spec["topics"]), seed=spec["seed"],
-                             jitter=spec.get("jitter", 0.0))
+                             jitter=spec.get("jitter", 0.0), api_versions=spec.get("api_versions"))
     for f in spec["faults"]:
         kw = {k: f[k] for k in ("api", "client", "nth", "count", "code", "seconds") if k in f and f[k] is not None}
         cluster.faults.add(sim.Fault(f["kind"], **kw))
